@@ -201,6 +201,28 @@ def RecvHalf.read (h : RecvHalf) (cap : Nat) : RecvHalf × ReadObs :=
     let r := RecvBuf.tryRead h.buf cap
     ({ h with buf := r.1 }, .read r.2.length none)
 
+def chunkLen (o : Option RecvBuf.Bytes) : Nat :=
+  match o with
+  | some d => d.length
+  | none => 0
+
+/-- `Reader::poll_next` (the `Stream` impl): hands out one whole segment.  `Recv::poll_next` has its
+own copy of the MAX_STREAM_DATA code of `poll_read`. -/
+def RecvHalf.next (h : RecvHalf) : RecvHalf × ReadObs :=
+  match h.phase with
+  | .recv =>
+    if !RecvBuf.isReadable h.buf then (h, .pending) else
+    let r := RecvBuf.tryNext h.buf
+    let hg := h.grow r.1
+    (hg.1, .read (chunkLen r.2) hg.2)
+  | .sizeKnown _ =>
+    if !RecvBuf.isReadable h.buf then (h, .pending) else
+    let r := RecvBuf.tryNext h.buf
+    ({ h with buf := r.1 }, .read (chunkLen r.2) none)
+  | .done =>
+    let r := RecvBuf.tryNext h.buf
+    ({ h with buf := r.1 }, .read (chunkLen r.2) none)
+
 /-! ## operation languages (the quantifier domains of the stream-level theorems) -/
 
 inductive SOp where
@@ -238,6 +260,166 @@ def RecvHalf.step (fixed : Bool) (h : RecvHalf) : ROp → RecvHalf
 
 def RecvHalf.run (fixed : Bool) (w : Nat) (ops : List ROp) : RecvHalf :=
   ops.foldl (RecvHalf.step fixed) (RecvHalf.mk0 w)
+
+/-! ## the whole receiving state machine (`Recver`) with the application's actions
+
+`RecvHalf` above is `Recver::{Recv, SizeKnown, DataRcvd/DataRead}` as the peer's STREAM frames and the
+application's reads drive it.  `Rcvr` adds what else can happen to a receiving half:
+
+* `Reader::stop(code)`: `stop_state` is set and one STOP_SENDING goes out — only in `Recv`/`SizeKnown`,
+  only the first time; `determin_size` carries `stop_state` over.  **Nothing that handles incoming
+  frames consults `stop_state`**: `Incoming::recv_data` / `Recv::recv` / `SizeKnown::recv` are the same
+  code before and after (this is what `Rcvr.rx` says by delegating to `RecvHalf.rx` unchanged);
+* RESET_STREAM (`DataStreams::recv_stream_control` → `Incoming::recv_reset`): the stream leaves the
+  input set; in `Recv` the remainder `final_size - largest` is returned for the connection-level
+  controller, in `SizeKnown` nothing more; later STREAM / RESET_STREAM frames find no stream: `Ok(0)`;
+* dropping the `Reader`: logs, changes nothing;
+* reads after a reset: `Err(Reset)`.
+
+`rfix = true`: `Recv::recv_reset` additionally refuses a final size beyond `max_stream_data`
+(FLOW_CONTROL_ERROR) — NOT what the current tree does (`rfix = false`). -/
+
+structure Rcvr where
+  half : RecvHalf
+  stopped : Option Nat := none   -- `stop_state`
+  rst : Option Nat := none       -- `Recver::ResetRcvd` / `ResetRead`: final size of the RESET_STREAM
+  readerGone : Bool := false     -- ghost: the `Reader` was dropped
+  charged : Nat := 0             -- ghost: Σ of the amounts handed to `on_new_rcvd` for this stream
+  stops : Nat := 0               -- ghost: STOP_SENDING frames emitted
+deriving Repr
+
+def Rcvr.mk0 (w : Nat) : Rcvr := { half := RecvHalf.mk0 w }
+
+/-- Still in `DataStreams::input` (`Recv` or `SizeKnown`)? -/
+def Rcvr.live (r : Rcvr) : Bool := r.rst.isNone && r.half.phase != .done
+
+/-- `DataStreams::recv_data` for this stream. -/
+def Rcvr.rx (fixed : Bool) (r : Rcvr) (off len : Nat) (fin : Bool) : Rcvr × RxObs :=
+  if r.rst.isSome then (r, .fresh 0)   -- removed from the input set by the RESET_STREAM: `Ok(0)`
+  else
+    let res := r.half.rx fixed off len fin
+    match res.2 with
+    | .fresh n => ({ r with half := res.1, charged := r.charged + n }, .fresh n)
+    | o => ({ r with half := res.1 }, o)
+
+inductive RstObs
+  | sync (n : Nat)      -- `Ok(sync_fresh_data)`
+  | finalSize
+  | flowControl
+deriving Repr, DecidableEq
+
+/-- `DataStreams::recv_stream_control(RESET_STREAM)` for this stream. -/
+def Rcvr.reset (rfix : Bool) (r : Rcvr) (final : Nat) : Rcvr × RstObs :=
+  if r.rst.isSome then (r, .sync 0) else
+  match r.half.phase with
+  | .recv =>
+    if final < r.half.largest then (r, .finalSize)
+    else if rfix ∧ final > r.half.msd then (r, .flowControl)
+    else ({ r with rst := some final, charged := r.charged + (final - r.half.largest) },
+          .sync (final - r.half.largest))
+  | .sizeKnown fs =>
+    if final ≠ fs then (r, .finalSize) else ({ r with rst := some final }, .sync 0)
+  | .done => (r, .sync 0)
+
+/-- `Reader::stop(code)`: is a STOP_SENDING frame emitted? -/
+def Rcvr.stop (r : Rcvr) (code : Nat) : Rcvr × Bool :=
+  if r.rst.isSome then (r, false) else
+  match r.half.phase with
+  | .done => (r, false)
+  | _ => if r.stopped.isSome then (r, false)
+         else ({ r with stopped := some code, stops := r.stops + 1 }, true)
+
+inductive RdObs
+  | half (o : ReadObs)
+  | resetErr
+deriving Repr, DecidableEq
+
+/-- `Reader::poll_read`. -/
+def Rcvr.read (r : Rcvr) (cap : Nat) : Rcvr × RdObs :=
+  if r.rst.isSome then (r, .resetErr)
+  else
+    let res := r.half.read cap
+    ({ r with half := res.1 }, .half res.2)
+
+/-- `Reader::poll_next`. -/
+def Rcvr.next (r : Rcvr) : Rcvr × RdObs :=
+  if r.rst.isSome then (r, .resetErr)
+  else
+    let res := r.half.next
+    ({ r with half := res.1 }, .half res.2)
+
+/-- Everything that can happen to a receiving half. -/
+inductive AOp where
+  | rx (off len : Nat) (fin : Bool)
+  | read (cap : Nat)
+  | next
+  | stop (code : Nat)
+  | reset (final : Nat)
+  | dropReader
+deriving Repr
+
+def Rcvr.step (fixed rfix : Bool) (r : Rcvr) : AOp → Rcvr
+  | .rx off len fin => (r.rx fixed off len fin).1
+  | .read cap => (r.read cap).1
+  | .next => r.next.1
+  | .stop code => (r.stop code).1
+  | .reset final => (r.reset rfix final).1
+  | .dropReader => { r with readerGone := true }
+
+def Rcvr.run (fixed rfix : Bool) (w : Nat) (ops : List AOp) : Rcvr :=
+  ops.foldl (Rcvr.step fixed rfix) (Rcvr.mk0 w)
+
+/-! ## the whole sending state machine (`Sender`) with cancel / STOP_SENDING
+
+`Writer::cancel` and `Outgoing::be_stopped` (STOP_SENDING from the peer) move `Ready`/`Sending`/
+`DataSent` to `ResetSent` and announce `final_size` = `sndbuf.sent()` (`written()` in `DataSent`, where
+the two are equal) in a RESET_STREAM; afterwards `try_load_data_into` returns `Err` (no frame, nothing
+charged), `update_window` and `write` do nothing. -/
+
+structure Sndr where
+  half : SendHalf
+  rst : Option Nat := none   -- `Sender::ResetSent` / `ResetRcvd`: the final size announced
+deriving Repr
+
+def Sndr.init (w : Nat) : Sndr := { half := SendHalf.init w }
+
+def Sndr.emit (s : Sndr) (a b : Nat) (fin : Bool) (avail : Nat) : Option (Sndr × Nat) :=
+  if s.rst.isSome then none
+  else match s.half.emit a b fin avail with
+    | some (h', c) => some ({ s with half := h' }, c)
+    | none => none
+
+/-- `cancel` / `be_stopped`: the RESET_STREAM final size, `none` when already reset. -/
+def Sndr.resetNow (s : Sndr) : Sndr × Option Nat :=
+  if s.rst.isSome then (s, none)
+  else
+    let f := if s.half.finSent then s.half.written else s.half.sentHi
+    ({ s with rst := some f }, some f)
+
+def Sndr.updateWindow (s : Sndr) (m : Nat) : Sndr :=
+  if s.rst.isSome then { s with half := { s.half with granted := max s.half.granted m } }
+  else { s with half := s.half.updateWindow m }
+
+inductive TOp where
+  | half (op : SOp)
+  | cancel
+  | stopSending
+deriving Repr
+
+def Sndr.step (s : Sndr) : TOp → Sndr
+  | .half (.msd m) => s.updateWindow m
+  | .half (.emit a b fin avail) =>
+    match s.emit a b fin avail with
+    | some (s', _) => s'
+    | none => s
+  | .half op => if s.rst.isSome then s else { s with half := s.half.step op }
+  | .cancel => s.resetNow.1
+  | .stopSending => s.resetNow.1
+
+def Sndr.run (w : Nat) (ops : List TOp) : Sndr := ops.foldl Sndr.step (Sndr.init w)
+
+def grantedOfT (w : Nat) (ops : List TOp) : Nat :=
+  ops.foldl (fun g op => match op with | .half (.msd m) => max g m | _ => g) w
 
 /-! ## one packet-assembly step against the connection controller -/
 
